@@ -569,3 +569,43 @@ try:
     body_handler_tiers(1, 1, 2)
 except Exception:
     pass
+
+
+@obligation(pre="0 <= how <= 2 and 0 <= ti <= 1", witnesses=(0,), timeout=240)
+def body_custom_dict_mutation(how: int, ti: int, x: int) -> int:
+    """the SAME mapping object passed as custom= twice, with an entry replaced / removed / added in between: each call uses the mapping's contents at that call"""
+    old_cache = make_converter.cache
+    make_converter.cache = dict(SNAP2)
+    try:
+        d = {int: Mk(3)} if how != 2 else {float: Mk(9)}
+        ty = t.List[int] if ti == 0 else t.Dict[str, int]
+        v = [x] if ti == 0 else {'k': x}
+        r1 = pane.from_data(v, ty, custom=d)
+        m1 = 3 if how != 2 else 0
+        if how == 0:
+            d[int] = Mk(4)
+            m2 = 4
+        elif how == 1:
+            del d[int]
+            m2 = 0
+        else:
+            d[int] = Mk(5)
+            m2 = 5
+        r2 = pane.from_data(v, ty, custom=d)
+        e1 = x if m1 == 0 else ('m', m1, x)
+        e2 = x if m2 == 0 else ('m', m2, x)
+        if not eqv(r1, [e1] if ti == 0 else {'k': e1}):
+            return 2
+        if not eqv(r2, [e2] if ti == 0 else {'k': e2}):
+            return 2
+        return 0
+    finally:
+        make_converter.cache = old_cache
+
+
+for _h in range(3):
+    try:
+        body_custom_dict_mutation(_h, 0, 1)
+        body_custom_dict_mutation(_h, 1, 1)
+    except Exception:
+        pass
